@@ -199,32 +199,10 @@ def run(rep, facts):
             if guard is not True:
                 bad.append("an Ok path does not pass the record-boundary guard")
                 continue
-            # discard + compaction happen before free_start is read for the hand-over
-            zero_ps = [i for i, (pl, val) in enumerate(writes) if pl[2] == 'parsed_start' and cv(val) == 0]
-            zero_gs = [i for i, (pl, val) in enumerate(writes) if pl[2] == 'gap_start' and cv(val) == 0]
-            fs_w = [i for i, (pl, val) in enumerate(writes) if pl[2] == 'free_start']
-            rs_w = [i for i, (pl, val) in enumerate(writes) if pl[2] == 'raw_start']
-            if not zero_ps or not zero_gs:
-                bad.append("buffered stream data is not discarded (parsed_start / gap_start are not reset to 0) before the hand-over")
-                continue
-            if not fs_w or not rs_w or min(fs_w) < max(zero_ps[0], zero_gs[0]):
-                bad.append("the buffer is not compacted after discarding the stream data")
-                continue
-            fsv = ir.peel(writes[fs_w[-1]][1], casts=False)
-            rsv = ir.peel(writes[rs_w[-1]][1])
-            inner = fsv[1] if fsv[0] == 'field' else fsv
-            if not (ir.peel(inner)[0] == 'bin' and ir.peel(inner)[1].startswith('Sub') and self_field(ir.peel(inner)[2], 'free_start')) or not self_field(rsv, 'gap_start'):
-                bad.append("compaction does not shift the raw region down to the gap (free_start -= raw_start - gap_start; raw_start = gap_start)")
-                continue
-            pos_sink = position_of_call(r, sink)
-            lw = last_write(r, 'free_start')
-            ld = load_position_of_arg(g, r, pos_sink, sink_arg, 'free_start') if pos_sink is not None else None
-            if pos_sink is None or lw is None or ld is None or not (lw < ld <= pos_sink):
-                bad.append("free_start is read for the hand-over before the compaction updated it")
-                continue
-            sc = [c for c in r.calls if c[0] == sink or c[0].endswith(sink)]
-            if not sc or not self_field(sc[-1][1][sink_arg], 'free_start'):
-                bad.append("the length handed over is not self.free_start")
+        # what is handed over, decided on values (E8): the unparsed input [raw_start, free_start) sits at [0, n) of the buffer, n being
+        # the length given to the next owner -- however discard / compaction / the hand-over are spelled
+        hb = handover_geometry(facts, "%s::%s" % (SP, fn), sink, sink_arg)
+        bad += hb
         key = fn
         if bad:
             rep.violation("R5.3", key, "; ".join(sorted(set(bad))), b.loc())
@@ -267,6 +245,44 @@ def run(rep, facts):
 def _c03_contracts():
     from . import c03
     return c03._contracts()
+
+
+def handover_geometry(facts, fn_npath, sink, sink_arg):
+    import regions as R
+    Lin = R.Lin
+    cs = dict(_c03_contracts())
+    def c_sink(it, st, args, dty):
+        n = args[sink_arg - 1] if sink == "std::vec::Vec::truncate" or True else None
+        n = args[sink_arg] if len(args) > sink_arg else None
+        st["events"].append(("handover", n, st["regions"].get("raw")))
+        return it.opaque()
+    cs[sink] = c_sink
+    b = facts.body(fn_npath)
+    it = R.Interp(facts, ["parsed_start", "gap_start", "raw_start", "free_start"], len_of="buffer",
+                  inline={SP + "::is_record_boundary", SP + "::discard_stream", SP + "::compress"},
+                  track={"raw": ("raw_start", "free_start")}, contracts=cs)
+    ends = it.run(b)
+    bad = []
+    seen = 0
+    for o in it.obligations:
+        if not o.ok and o.kind in ("copy", "clobber", "sub", "slice"):
+            bad.append("on the way to the hand-over: %s" % o.text)
+    for e in ends:
+        hs = [ev for ev in e.events if ev[0] == "handover"]
+        if not hs:
+            continue
+        seen += 1
+        (_, n, loc) = hs[-1]
+        if not isinstance(n, Lin) or loc is None:
+            bad.append("the length handed over or the location of the unparsed input is not tracked")
+            continue
+        (s0, e0) = loc
+        at0 = (e.ctx.eq(s0, 0) and e.ctx.eq(e0, n)) or (e.ctx.eq(s0, e0) and e.ctx.eq(n, 0))
+        if not at0:
+            bad.append("the unparsed input is at [%s, %s) of the buffer when %s byte(s) are handed over: the next owner would not read exactly the unread suffix" % (s0, e0, n))
+    if not seen and not bad:
+        bad.append("no path reaching the hand-over was interpreted")
+    return bad
 
 
 def run_async_handoff(rep, facts):
